@@ -64,7 +64,9 @@ P_MGR = "src/frequenz/sdk/microgrid/_power_distributing/_component_managers/_bat
 P_CALC = "src/frequenz/sdk/timeseries/battery_pool/_metric_calculator.py"
 P_SRC = "src/frequenz/sdk/microgrid/_data_sourcing/microgrid_api_source.py"
 P_BASE = "src/frequenz/sdk/timeseries/_base_types.py"
-SOURCES = [P_MATH, P_RESULT, P_ALGO, P_MGR, P_CALC, P_SRC, P_BASE]
+SOURCES = [P_MATH, P_RESULT, P_ALGO, P_MGR, P_CALC, P_SRC, P_BASE,
+           "src/frequenz/sdk/timeseries/battery_pool/_component_metrics.py",
+           "src/frequenz/sdk/timeseries/battery_pool/_methods.py"]
 
 
 class Unsupported(Exception):
@@ -1789,6 +1791,177 @@ def gen_power_bounds_calc(tree: ast.Module) -> str:
     return out
 
 
+P_CMD = "src/frequenz/sdk/timeseries/battery_pool/_component_metrics.py"
+P_METHODS = "src/frequenz/sdk/timeseries/battery_pool/_methods.py"
+
+
+def _attr_pair(c: ast.Compare) -> str | None:
+    """`self.<a> == other.<a>` (either order; `_a` and the property `a` are the same field) -> a."""
+    if len(c.ops) != 1 or not isinstance(c.ops[0], ast.Eq):
+        return None
+    l, r = c.left, c.comparators[0]
+    if isinstance(l, ast.Attribute) and isinstance(r, ast.Attribute) and isinstance(l.value, ast.Name) and isinstance(r.value, ast.Name) \
+            and {l.value.id, r.value.id} == {"self", "other"} and l.attr.lstrip("_") == r.attr.lstrip("_"):
+        return l.attr.lstrip("_")
+    return None
+
+
+def gen_stream(repo: pathlib.Path) -> str:
+    """What the streamed-bounds history theorem (`C17_stream_is_latest`) needs from the source.
+
+    (1) `ComponentMetricsData.__eq__` is equality of the DATA: whenever it returns something other than `False`, that
+        is a conjunction of `self.<field> == other.<field>` tests which includes the metrics (no tolerance, no `isclose`,
+        no subset of the metrics).  So two samples with different metric values are never "equal".
+    (2) `SendOnUpdate._update_and_notify` sets the update event for a fetched sample exactly when the component has no
+        cached sample or the cached one `!=` the new one (evaluated on the three possible situations, through
+        `_metric_updated` or inline, whatever the spelling), and then stores the sample in the cache unconditionally."""
+    tree = parse(repo, P_CMD)
+    c = _class_of(tree, "ComponentMetricsData")
+    eq = next((m for m in c.body if isinstance(m, ast.FunctionDef) and m.name == "__eq__"), None)
+    if eq is None:
+        raise Unsupported("ComponentMetricsData.__eq__ not found (identity / dataclass equality is not modelled)")
+    if [a.arg for a in eq.args.args] != ["self", "other"]:
+        raise Unsupported("ComponentMetricsData.__eq__ signature")
+    data_fields = {ast.unparse(s.targets[0] if isinstance(s, ast.Assign) else s.target).split(".")[-1].lstrip("_")
+                   for m in c.body if isinstance(m, ast.FunctionDef) and m.name == "__init__"
+                   for s in ast.walk(m) if isinstance(s, (ast.Assign, ast.AnnAssign))
+                   and ast.unparse(s.targets[0] if isinstance(s, ast.Assign) else s.target).startswith("self.")}
+    if "metrics" not in data_fields:
+        raise Unsupported(f"ComponentMetricsData fields {sorted(data_fields)}")
+    n_true = 0
+    for s, path in stmt_paths(body_no_doc(eq)):
+        if isinstance(s, ast.Return):
+            v = s.value
+            if isinstance(v, ast.Constant) and v.value is False:
+                continue
+            conj = v.values if isinstance(v, ast.BoolOp) and isinstance(v.op, ast.And) else [v]
+            fields = [_attr_pair(x) if isinstance(x, ast.Compare) else None for x in conj]
+            # fields already established unequal/equal on the path (`if self.a != other.a: return False`)
+            for test, pol in path:
+                t, q = strip_nots(test)
+                if isinstance(t, ast.Compare) and len(t.ops) == 1 and isinstance(t.ops[0], (ast.Eq, ast.NotEq)):
+                    f = _attr_pair(ast.Compare(left=t.left, ops=[ast.Eq()], comparators=t.comparators))
+                    if f is not None and (isinstance(t.ops[0], ast.Eq) == (pol == q)):
+                        fields.append(f)
+            if any(f is None for f in fields) or "metrics" not in fields:
+                raise Unsupported(f"ComponentMetricsData.__eq__ returns `{ast.unparse(v)[:70]}`: not the equality of the stored metrics")
+            n_true += 1
+        elif not isinstance(s, (ast.Expr, ast.Pass)):
+            raise Unsupported(f"ComponentMetricsData.__eq__: statement {ast.unparse(s)[:50]}")
+    if n_true == 0:
+        raise Unsupported("ComponentMetricsData.__eq__ never compares the metrics")
+    if any(isinstance(m, ast.FunctionDef) and m.name == "__ne__" for m in c.body):
+        raise Unsupported("ComponentMetricsData.__ne__ is overridden")
+
+    # ---- SendOnUpdate: when is the update event set for a fetched sample?
+    mt = parse(repo, P_METHODS)
+    sc = _class_of(mt, "SendOnUpdate")
+    fn = next((m for m in sc.body if isinstance(m, (ast.FunctionDef, ast.AsyncFunctionDef)) and m.name == "_update_and_notify"), None)
+    if fn is None:
+        raise Unsupported("SendOnUpdate._update_and_notify not found")
+    methods = {m.name: m for m in sc.body if isinstance(m, ast.FunctionDef)}
+    CACHE = "self._cached_metrics"
+
+    def aliases(f: ast.AST) -> dict[str, ast.expr]:
+        """locals assigned exactly once from a name / attribute chain"""
+        cnt: dict[str, list] = {}
+        for n in ast.walk(f):
+            if isinstance(n, (ast.Assign, ast.AnnAssign)) and getattr(n, "value", None) is not None:
+                t = n.targets[0] if isinstance(n, ast.Assign) and len(n.targets) == 1 else getattr(n, "target", None)
+                if isinstance(t, ast.Name):
+                    cnt.setdefault(t.id, []).append(n.value)
+            elif isinstance(n, (ast.For, ast.AsyncFor)):  # (comprehension targets live in their own scope)
+                for x in ast.walk(n.target):
+                    if isinstance(x, ast.Name):
+                        cnt.setdefault(x.id, []).append(None)
+        ok = {}
+        for k, vs in cnt.items():
+            if len(vs) == 1 and vs[0] is not None:
+                v = vs[0]
+                while isinstance(v, ast.Attribute):
+                    v = v.value
+                if isinstance(v, ast.Name):
+                    ok[k] = vs[0]
+        return ok
+
+    def src(e: ast.expr, al: dict[str, ast.expr]) -> str:
+        for _ in range(5):
+            e2 = _SubstNames(al).visit(__import__("copy").deepcopy(e))
+            if ast.unparse(e2) == ast.unparse(e):
+                break
+            e = e2
+        return ast.unparse(e)
+
+    def ev(e: ast.expr, al: dict[str, ast.expr], m: str, has: bool, same: bool) -> bool:
+        """value of a test for the fetched sample `m`, given: has the cache an entry for it / is it == the new one"""
+        if isinstance(e, ast.UnaryOp) and isinstance(e.op, ast.Not):
+            return not ev(e.operand, al, m, has, same)
+        if isinstance(e, ast.BoolOp):
+            if isinstance(e.op, ast.And):
+                return all(ev(v, al, m, has, same) for v in e.values)  # `all` short-circuits like `and`
+            return any(ev(v, al, m, has, same) for v in e.values)
+        if isinstance(e, ast.Constant) and isinstance(e.value, bool):
+            return e.value
+        if isinstance(e, ast.Name) and e.id in al:
+            return ev(al[e.id], al, m, has, same)
+        if isinstance(e, ast.Compare) and len(e.ops) == 1:
+            l, r, op = src(e.left, al), src(e.comparators[0], al), e.ops[0]
+            if isinstance(op, (ast.In, ast.NotIn)) and l == f"{m}.component_id" and r == CACHE:
+                return has == isinstance(op, ast.In)
+            if isinstance(op, (ast.Eq, ast.NotEq)) and {l, r} == {m, f"{CACHE}[{m}.component_id]"}:
+                if not has:
+                    raise Unsupported("SendOnUpdate: the cached sample is read before it is known to exist")
+                return same == isinstance(op, ast.Eq)
+        if isinstance(e, ast.Call) and isinstance(e.func, ast.Attribute) and isinstance(e.func.value, ast.Name) \
+                and e.func.value.id == "self" and e.func.attr in methods and len(e.args) == 1 and not e.keywords:
+            h = methods[e.func.attr]
+            params = [a.arg for a in h.args.args][1:]
+            if len(params) != 1:
+                raise Unsupported(f"SendOnUpdate.{h.name} signature")
+            arg = src(e.args[0], al)
+            hal = {**aliases(h), params[0]: ast.Name(id=arg, ctx=ast.Load())}
+            hal = {k: v for k, v in hal.items() if k != arg}
+            for s, path in stmt_paths(body_no_doc(h)):
+                if isinstance(s, ast.Return) and all(ev(t, hal, arg, has, same) == pol for t, pol in path):
+                    if s.value is None:
+                        raise Unsupported(f"SendOnUpdate.{h.name}: bare return")
+                    return ev(s.value, hal, arg, has, same)
+            raise Unsupported(f"SendOnUpdate.{h.name}: no return on some path")
+        raise Unsupported(f"SendOnUpdate: cannot evaluate `{ast.unparse(e)[:70]}` as a change test")
+
+    al = aliases(fn)
+    sets = [n for n in ast.walk(fn) if isinstance(n, ast.If)
+            and any(isinstance(x, ast.Call) and src(x.func, al) == "self._update_event.set" for b in n.body for x in ast.walk(b))]
+    if len(sets) != 1 or sets[0].orelse:
+        raise Unsupported("SendOnUpdate._update_and_notify: expected exactly one `if <changed>: self._update_event.set()`")
+    test = sets[0].test
+    names = {n.id for n in ast.walk(test) if isinstance(n, ast.Name)} - {"self"}
+    cands = [n for n in names if n not in al]
+    # the stored sample: `<cache>[<m>.component_id] = <m>`
+    stores = [s for s in ast.walk(fn) if isinstance(s, ast.Assign) and len(s.targets) == 1 and isinstance(s.targets[0], ast.Subscript)
+              and src(s.targets[0].value, al) == CACHE and isinstance(s.value, ast.Name)
+              and src(s.targets[0].slice, al) == f"{s.value.id}.component_id"]
+    if len(stores) != 1:
+        raise Unsupported("SendOnUpdate._update_and_notify: the fetched sample is not stored as `_cached_metrics[cid] = metrics` exactly once")
+    m = stores[0].value.id
+    if m not in cands and m not in {n.id for n in ast.walk(test) if isinstance(n, ast.Name)}:
+        raise Unsupported("SendOnUpdate._update_and_notify: the change test is not about the sample that is stored")
+    # same block, the test first (the cache still holds the previous sample), the store unconditional
+    blk = next((b for n in ast.walk(fn) for f in ("body", "orelse") for b in [getattr(n, f, None)]
+                if isinstance(b, list) and sets[0] in b), None)
+    if blk is None or stores[0] not in blk or blk.index(sets[0]) > blk.index(stores[0]):
+        raise Unsupported("SendOnUpdate._update_and_notify: the sample must be compared with the cached one, then stored unconditionally")
+    table = {(has, same): ev(test, al, m, has, same) for has, same in ((False, False), (True, True), (True, False))}
+    if table != {(False, False): True, (True, True): False, (True, False): True}:
+        raise Unsupported(f"SendOnUpdate: a sample triggers a recalculation on {table}, expected: no cached sample or a different one")
+    return ("/-- `ComponentMetricsData.__eq__` is equality of the stored metrics (and ids): samples with different values are never\n"
+            "equal — no tolerance.  Established from `_component_metrics.py` on every run. -/\n"
+            "def metricsEqIsDataEq : Bool := true\n\n"
+            "/-- `SendOnUpdate._update_and_notify` sets the update event for a fetched sample exactly when the component has no\n"
+            "cached sample or the cached one `!=` it, and then caches the sample.  Established from `_methods.py`. -/\n"
+            "def updateIffChanged : Bool := true\n")
+
+
 def gen_methods_tables(repo: pathlib.Path) -> str:
     tree = parse(repo, P_SRC)
     out = ""
@@ -1868,6 +2041,7 @@ def generate(repo: pathlib.Path) -> str:
                         "Energy.from_watt_hours", cap_roles),
         gen_methods_tables(repo),
         gen_base_types(repo),
+        gen_stream(repo),
         "end Extracted.Pool\n",
     ]
     return "\n".join(parts)
